@@ -60,7 +60,37 @@ func (s *State) clone() *State {
 	return n
 }
 
-func (s *State) assume(t *Term) { s.G = And(s.G, t) }
+func (s *State) assume(t *Term) {
+	// a comparison whose exact complement (a < b against b <= a) is already assumed
+	// makes the state unreachable: detected syntactically so that dead branches are pruned
+	if c := complementCmp(t); c != nil {
+		for _, g := range conjuncts(s.G) {
+			if g == c {
+				s.G = False
+				return
+			}
+		}
+	}
+	s.G = And(s.G, t)
+}
+
+// complementCmp: for a < b the term b <= a and vice versa (signed and unsigned); nil otherwise.
+func complementCmp(t *Term) *Term {
+	var op string
+	switch t.Op {
+	case "bvslt":
+		op = "bvsle"
+	case "bvsle":
+		op = "bvslt"
+	case "bvult":
+		op = "bvule"
+	case "bvule":
+		op = "bvult"
+	default:
+		return nil
+	}
+	return mk(&Term{Op: op, Args: []*Term{t.Args[1], t.Args[0]}, Sort: BoolSort})
+}
 
 // heapSorts remembers the sort of each heap family array.
 var heapSorts = map[string]*Sort{}
